@@ -481,7 +481,9 @@ func (fe *FuncEnc) addOblig(o *Oblig, err error) {
 	}
 	o.Fn = fe.eng.displayName(fe.fn)
 	o.prel = fe.pre
-	o.nline = len(fe.pre.body)
+	if o.nline == 0 {
+		o.nline = len(fe.pre.body)
+	}
 	o.fn = fe.fn
 	o.heapNames = fe.heapSorts
 	o.sorts = fe.sorts
@@ -925,7 +927,20 @@ func (fe *FuncEnc) newRef(base string) string {
 	for _, p := range fe.seenRefs {
 		fe.assume(fmt.Sprintf("(not (= %s %s))", n, p))
 	}
-	// a new object is not an element of any slice of references that exists at this moment
+	// a new object is not an element of any slice of references that exists at this moment. "Exists" is made explicit by a
+	// birth stamp: born(r) is the ordinal of the allocation in encoding (= execution) order, the backing arrays of slice
+	// parameters are born before the function starts, and the fact speaks only about slices whose backing array is older than
+	// the new object. (Without the stamp the fact also covered arrays allocated later, whose initial contents are asserted in
+	// the same heap version: storing the new object into a later literal or append result contradicted it.)
+	fe.allocSeq++
+	if fe.allocSeq == 1 && fe.top != nil {
+		for _, p := range append(append([]Term{}, fe.top.params...), fe.top.free...) {
+			if p.K == SSlice {
+				fe.assumeGlobal(fmt.Sprintf("(<= (born (s_base %s)) 0)", p.S))
+			}
+		}
+	}
+	fe.assume(fmt.Sprintf("(= (born %s) %d)", n, fe.allocSeq))
 	if _, ok := fe.heapSorts["HS_Int"]; ok && fe.curState != nil {
 		hv := fe.hget(fe.curState, "HS_Int")
 		fe.pre.decl(fmt.Sprintf("(declare-fun at_Int (%s Slice Int) Int)", fe.heapSorts["HS_Int"]))
@@ -933,7 +948,7 @@ func (fe *FuncEnc) newRef(base string) string {
 		if g == "" {
 			g = "true"
 		}
-		fe.assume(fmt.Sprintf("(forall ((qs Slice) (qi Int)) (! (=> %s (not (= (at_Int %s qs qi) %s))) :pattern ((at_Int %s qs qi))))", g, hv, n, hv))
+		fe.assume(fmt.Sprintf("(forall ((qs Slice) (qi Int)) (! (=> (and %s (< (born (s_base qs)) %d)) (not (= (at_Int %s qs qi) %s))) :pattern ((at_Int %s qs qi))))", g, fe.allocSeq, hv, n, hv))
 	}
 	fe.allocs = append(fe.allocs, n)
 	return n
